@@ -457,6 +457,10 @@ func (x *Exec) applyContract(st *State, ct *Contract, c *callee, recv *T, args [
 		t := x.specEval(st, e.Expr, env)
 		st.assume(t.S)
 	}
+	for _, e := range ct.Trusted {
+		t := x.specEval(st, e.Expr, env)
+		st.assume(t.S)
+	}
 	for _, dcl := range ct.Defines {
 		// the spec term is, by definition, the result of this function
 		if len(results) >= 1 {
